@@ -327,12 +327,22 @@ def build_contracted(sd):
         b = rng.randrange(a + 2, n_ops + 1)
         fac = fac[:a] + [NO(Mul(*fac[a:b]))] + fac[b:]
     expr = Mul(*tensors) * Mul(*fac) * rng.choice([1, Rational(1, 2), -1])
+    rng2 = random.Random(sd * 2654435761 % (2 ** 31) + 3)
+    const = []
+    if rng2.random() < 0.3:
+        # an operator-free term next to the operator product (e.g. the constant part of H - E0):
+        # it takes part in the block rules like every other term
+        x_, y_ = _sym(rng2.choice(NAMES[rng2.choice("ov")][3:5])), _sym(rng2.choice(NAMES[rng2.choice("ov")][3:5]))
+        if x_ != y_:
+            const = [AntiSymmetricTensor(rng2.choice(["f", "d"]), (x_,), (y_,)),
+                     AntiSymmetricTensor("w1", (x_,), (y_,))]
+            expr = expr + rng2.choice([2, -1, Rational(1, 2)]) * Mul(*const)
     rules = None
     if rng.random() < 0.5:
         from adcgen.rules import Rules
         forb = {}
         from adcgen.sympy_objects import SymbolicTensor
-        for t in sorted(set(x.name for x in Mul(*tensors).atoms(SymbolicTensor))):
+        for t in sorted(set(x.name for x in Mul(*(tensors + const)).atoms(SymbolicTensor))):
             blocks = ["oo", "ov", "vv", "vo", "oooo", "ooov", "oovv", "ovov", "ovvv", "vvvv",
                       "ovoo", "vvoo", "vvov"]
             forb[t] = rng.sample(blocks, rng.randint(1, len(blocks) // 2))
